@@ -147,7 +147,10 @@ def main():
     # 2. generation tier
     nworkers = int(os.environ.get("VERIF_WORKERS", "16"))
     tasks = []
+    only = [x for x in os.environ.get("VERIF_ONLY", "").split(",") if x]  # development aid: run a subset of the checks
     for c in mod.CHECKS:
+        if only and c.name not in only:
+            continue
         w = c.workers or nworkers
         for i in range(w):
             tasks.append((prop, c.name, tier, seed * 1000 + i, i, w))
